@@ -134,6 +134,9 @@ def h_grad(cfg, V):
     if cfg["g"] == "box":
         g.feasible(x, V)
     am = alg.GradientMethod(gradf, x, alpha, proxg=g.prox, accelerate=True, max_iter=3)
+    # base case of the induction: the constructed state is x = z = x0 (a separate array), t = 1 - the potential then starts at ||x0 - w||^2
+    init = [("initial_extrapolated_point_is_x0", O.eq(am.z, x_in)), ("initial_t_is_one", O.eq(am.t, 1)),
+            ("initial_z_is_not_an_alias_of_x", O.const(am.z is not am.x and not np.shares_memory(am.z, am.x)))]
     am.z = z.copy()
     am.t = t
     z_in = z.copy()
@@ -142,8 +145,8 @@ def h_grad(cfg, V):
     am.update()
     tp = am.t
     xp, zp = am.x, am.z
-    obl = [("updates_callers_array", O.const(am.x is x)),
-           ("t_recurrence", O.eq(tp * tp - tp, t * t)), ("t_at_least_one", O.ge(tp, 1))]
+    obl = init + [("updates_callers_array", O.const(am.x is x)),
+                  ("t_recurrence", O.eq(tp * tp - tp, t * t)), ("t_at_least_one", O.ge(tp, 1))]
     pot1 = (F(xp) - Fw) * 2 * alpha * (tp * tp - tp) + O.norm2(xp + tp * (zp - xp) - w)
     # Beck-Teboulle potential decrease, decided through its textbook certificate: the three-point inequality of the prox-gradient
     # step taken at z, instantiated at the old x (slack S1) and at w (slack S2), combined with multipliers 2 alpha t (t-1) and 2 alpha t.
@@ -245,8 +248,17 @@ def h_pdhg(cfg, V):
                 obl.append(("theta_in_(0,1]", O.all_([B.and_(O.gt(a, 0), O.le(a, c)) for a, c in zip(t1, t00)])))
             else:
                 obl.append(("theta_in_(0,1]", O.all_([B.and_(O.gt(a, 0), O.le(a, c)) for a, c in zip(s1, s00)])))
+            # Chambolle-Pock acceleration rule: the step that shrinks is divided by sqrt(1 + 2 gamma * (its CURRENT minimum)), at every update
+            gam = gp if mode == "gamma_primal" else gd
+            obl.append(("rescaling_rule_update1", _rescale(t00 if mode == "gamma_primal" else s00, t1 if mode == "gamma_primal" else s1, gam)))
+            trk = pd.tau_min if mode == "gamma_primal" else pd.sigma_min
+            obl.append(("tracked_minimum_is_current_minimum_1", O.eq(trk, _min(t1 if mode == "gamma_primal" else s1))))
             pd.update()
             obl.append(("saddle_point_still_fixed", B.and_(O.eq(pd.x, xs), O.eq(pd.u, us))))
+            t2 = list(np.ravel(pd.tau)) if cfg["steps"] != "scalar" else [pd.tau]
+            s2 = list(np.ravel(pd.sigma)) if cfg["steps"] != "scalar" else [pd.sigma]
+            obl.append(("rescaling_rule_update2", _rescale(t1 if mode == "gamma_primal" else s1, t2 if mode == "gamma_primal" else s2, gam)))
+            obl.append(("step_product_preserved_2", O.all_([O.eq(a * b_, c * d) for a, c in zip(t2, t00) for b_, d in zip(s2, s00)])))
         return obl
     # monotone proximal-point metric over two updates from an arbitrary state
     x = V.array("x", [n], False)
@@ -292,6 +304,20 @@ def h_pdhg(cfg, V):
     one = S.SymK.lift(1) if V.symbolic else 1.0
     obl.append(("ppa_metric_nonincreasing_from_certificate", _combine(V, [(one, step), (2 * one, gmono), (2 * one, fmono)], drop)))
     return obl
+
+
+def _min(vals):
+    m = vals[0]
+    for v in vals[1:]:
+        if v < m:
+            m = v
+    return m
+
+
+def _rescale(before, after, gam):
+    """after_i^2 * (1 + 2 gam min(before)) == before_i^2 and after_i > 0"""
+    mb = _min(list(before))
+    return O.all_([B.and_(O.eq(a * a * (1 + 2 * gam * mb), b_ * b_), O.gt(a, 0)) for a, b_ in zip(after, before)])
 
 
 def _combine(V, pairs, total):
